@@ -12,7 +12,7 @@ Threads: the message pump, the reader of the client's connection (A-READER: one 
 disconnection in three steps; `CreateClient` of the next connection — A-LINK: the websocket server reports the end of a
 connection of an id before it announces the next one, /repo 3413323), time-out goroutines (one per context), and the
 goroutines `signalReadyForDispatch` starts when the slot is taken. One label = one synchronisation operation of the Go
-code after the repairs up to 14c8d05. Queue objects have identity (`qs`, index = object): a thread that fetched a queue
+code after the repairs up to the orphan-on-failed-write repair. Queue objects have identity (`qs`, index = object): a thread that fetched a queue
 before a reconnection keeps using the old object, exactly as the code does.
 
 Abstractions: time (a live context may expire whenever), payloads, `Stop`, the capacities of the wake-up and expiry
@@ -44,6 +44,8 @@ inductive Pump where
   | cp1 (w : Bool) (h : Nat)         -- `CompleteRequest(c, h)` on the pump (w: after a failed write): `queueMap.Get`
   | cp2 (w : Bool) (h : Nat) (qi : Nat)  -- look at the head, compare, pop, delete pending: one step (completion mutex)
   | cp3 (w : Bool) (h : Nat)         -- next: ready signal
+  | wfO (h : Nat)                    -- failed write: drop the request if it is still pending (it was not in the client's queue)
+  | wfOS (h : Nat)                   -- next: ready signal
   | cb (w : Bool) (h : Nat)          -- next: the cancel callback (outcome mutex), then back to the select
   | rd1                              -- ready branch: cancel the context unless a request is pending
   | rd2                              -- next: `queueMap.Get(c)`
@@ -74,6 +76,7 @@ deriving Repr, DecidableEq, Hashable
 
 structure St where
   tmo    : Bool := true              -- a request timeout is configured
+  dropW  : Bool := true              -- the failed-write path drops a request nothing completed (/repo 6d71525); false = before
   cur    : Option Nat := none        -- the queue map's entry for c (index into `qs`)
   qs     : List (List Nat) := []     -- every queue object ever created for c
   pend   : Option Nat := none        -- pending request state of c
@@ -126,6 +129,10 @@ def readerHolds (s : St) : Bool :=
   | .c1 _ | .c2 _ _ | .c3 _ | .hd _ => true
   | _ => false
 
+/-- where `CompleteRequest` returns to on the pump: the timer branch goes on to the cancel callback, `dispatchNextRequest`
+    (failed write) first drops the request if nothing completed it -/
+def afterCompletion (d w : Bool) (h : Nat) : Pump := if w && d then .wfO h else .cb w h
+
 def pumpStep (s : St) : Option St :=
   match s.pump with
   | .sel => none
@@ -147,9 +154,11 @@ def pumpStep (s : St) : Option St :=
     | none => some { s with pump := .tmO }
   | .tmO => some { s with pend := none, pump := if s.pend.isSome then .tmOS else .sel }
   | .tmOS => some { signal s with pump := .sel }
-  | .cp1 w h => some { s with pump := match s.cur with | none => .cb w h | some qi => .cp2 w h qi }
-  | .cp2 w h qi => some { (complete s h qi).1 with pump := if (complete s h qi).2 then .cp3 w h else .cb w h }
-  | .cp3 w h => some { signal s with pump := .cb w h }
+  | .cp1 w h => some { s with pump := match s.cur with | none => afterCompletion s.dropW w h | some qi => .cp2 w h qi }
+  | .cp2 w h qi => some { (complete s h qi).1 with pump := if (complete s h qi).2 then .cp3 w h else afterCompletion s.dropW w h }
+  | .cp3 w h => some { signal s with pump := afterCompletion s.dropW w h }
+  | .wfO h => some (if s.pend == some h then { s with pend := none, pump := .wfOS h } else { s with pump := .cb true h })
+  | .wfOS h => some { signal s with pump := .cb true h }
   | .cb w _ => if readerHolds s then none else some { s with ctx := if w then .zero else s.ctx, pump := .sel }
   | .rd1 =>
     match s.ctx with
